@@ -322,5 +322,5 @@ func drawGels(t *rapid.T) gelsCase {
 }
 
 func TestGels(t *testing.T) {
-	vk.Run(t, "gels", vk.Opts{Quick: 500, Thorough: 20000}, drawGels, finish(checkGels))
+	vk.Run(t, "gels", vk.Opts{Quick: 500, Thorough: 12000}, drawGels, finish(checkGels))
 }
